@@ -11,7 +11,7 @@
 (*   dec_err yabgp.parse(ref) reported an error                            *)
 (* TLC evaluates the structural walker and the normal form on `impl`.      *)
 (***************************************************************************)
-EXTENDS WireUpdate, WireOpen, WireComm, TLCExt, Json, IOUtils
+EXTENDS WireMp, WireOpen, WireComm, TLCExt, Json, IOUtils
 
 CONSTANTS PROPS
 Tr == ndJsonDeserialize(IOEnv.TRACE_FILE)
@@ -57,6 +57,15 @@ CheckComm(r) ==
       /\ Ck("C17", r, "C17.octets", r.accepted => (WfUpdate(r.bin, TRUE) /\ SameExt(AttrValueOf(r.bin, r.sub), r.ref)), r.text)
       /\ Ck("C17", r, "C17.sametext", r.accepted => r.text2_same, r.diff)
       /\ Ck("C17", r, "C17.sent", r.accepted => (r.sent_ok /\ r.wire = r.bin /\ r.exc = 0), r.text)
+\* multiprotocol families (C07, C08)
+CheckMp(r) ==
+   r.kind = "mp" =>
+      /\ Ck("C07", r, "C07.constructs", ~r.raised /\ ~r.none, r.diff)
+      /\ Ck("C07", r, "C07.roundtrip", HasImpl(r) => r.rt_ok, r.diff)
+      /\ Ck("C07", r, "C07.meaning", (HasImpl(r) /\ WfUpdateMp(r.impl, TRUE)) => NormUpdate(r.impl) = NormUpdate(r.ref), <<>>)
+      /\ Ck("C07", r, "C07.decode", r.dec_ok, r.ddiff)
+      /\ Ck("C08", r, "C08.silent", ~r.none, <<>>)
+      /\ Ck("C08", r, "C08.wellformed", HasImpl(r) => WfUpdateMp(r.impl, TRUE), <<>>)
 \* UPDATEs constructed with add-path identifiers (C08 / C09)
 CheckAP(r) ==
    r.kind = "updap" =>
@@ -65,6 +74,6 @@ CheckAP(r) ==
       /\ Ck("C08", r, "C08.meaning", (HasImpl(r) /\ WfUpdateAP(r.impl, TRUE)) => NormUpdateAP(r.impl) = NormUpdateAP(r.ref), <<>>)
       /\ Ck("C09", r, "C09.decode", r.dec_ok, r.ddiff)
 Init == l = 1
-Next == l <= Len(Tr) /\ (IF Tr[l].kind = "comm" THEN CheckComm(Tr[l]) ELSE IF Tr[l].kind = "updap" THEN CheckAP(Tr[l]) ELSE (CheckLine(Tr[l]) /\ CheckSess(Tr[l]))) /\ l' = l + 1
+Next == l <= Len(Tr) /\ (IF Tr[l].kind = "mp" THEN CheckMp(Tr[l]) ELSE IF Tr[l].kind = "comm" THEN CheckComm(Tr[l]) ELSE IF Tr[l].kind = "updap" THEN CheckAP(Tr[l]) ELSE (CheckLine(Tr[l]) /\ CheckSess(Tr[l]))) /\ l' = l + 1
 AllConsumed == TLCGet("stats").diameter - 1 = Len(Tr)
 =============================================================================
